@@ -884,6 +884,8 @@ class Gen:
                 continue
             if isinstance(d, Struct):
                 if d.subtypes:
+                    # an example of an enumerating base names one subtype tag and a label of that
+                    # subtype's examples (subtypes come later in the definition list: second pass below)
                     continue
                 for label in EX_LABELS[:t.rng(1, 2)]:
                     vals = []
@@ -920,6 +922,20 @@ class Gen:
                         if v is None or v == ('null',):
                             continue
                     d.examples.append(Example(label=label, doc=None, values=[(g.name, v)]))
+
+    def gen_tree_examples(self, ns):
+        t = self.t
+        for d in list(self.m.namespaces[ns].defs):
+            if not (isinstance(d, Struct) and d.subtypes) or not t.chance(60):
+                continue
+            for label in EX_LABELS[:t.rng(1, 2)]:
+                cands = [(tag, sub) for tag, sub in self.m.subtypes_of(d)
+                         if any(e.label == label for e in sub.examples)]
+                if not cands:
+                    continue
+                tag, sub = t.choice(cands)
+                d.examples.append(Example(label=label, doc=self.doc(None, short=True),
+                                          values=[(tag, ('label', label))]))
 
     # -- patches -----------------------------------------------------------------------------
     def gen_patches(self, ns):
@@ -987,6 +1003,8 @@ class Gen:
         start = t.draw(len(NS_NAMES))
         for i in range(nns):
             names.append(NS_NAMES[(start + i) % len(NS_NAMES)])
+        if getattr(cfg, 'ns_names', None):
+            names = list(cfg.ns_names)[:max(1, nns)]
         if cfg.stone_cfg and cfg.routes and t.chance(60):
             c = Namespace(name='stone_cfg', doc=None, imports=[], defs=[])
             self.m.cfg = c
@@ -1037,6 +1055,7 @@ class Gen:
                 self.apply_annotations(nm)
             if cfg.examples and t.chance(60):
                 self.gen_examples(nm)
+                self.gen_tree_examples(nm)
             if cfg.patches and t.chance(35):
                 self.gen_patches(nm)
         return self.m
